@@ -12,9 +12,13 @@ completeness at every level with the `_completed` set as it is at that moment.
 
 This file is that algorithm, statement by statement, on the same `Node` type (a `WrittenAction` with
 its `_children` map *is* a trie node; plain messages are never stored in `_nodes` themselves, except
-for the single-message task at the root).  `Proofs/ParseFlat.lean` proves that it refines the trie:
-if the map holds, under every level, exactly the sub-trie at that level, it does so again after
-`add`, and `_completed` is the same set.  No Mathlib.
+for the single-message task at the root).  `Proofs/ParseFlat.lean` proves that it refines the trie
+**where the trie's `add` succeeds and the message is inside the domain `PlainDom`**: if the map holds,
+under every level, exactly the sub-trie at that level when that is an action, it does so again after
+such an `add`, and `_completed` has the same members.  Outside that (a plain message arriving where an
+action is known; anything arriving at or below a plain message, where the trie answers `underMessage`
+while the code makes a placeholder action) nothing is proved; there this model, not the trie, is what
+the correspondence compares with the code.  No Mathlib.
 -/
 namespace PM
 
